@@ -15,7 +15,8 @@
 //         builds member (libcfg, kind, params) of the fixed library family below, dumps it (dump.hpp,
 //         struct walk) BEFORE writing, then write_gds(path, max_points, fixed timestamp 2024-03-05
 //         06:07:08) -> {"id":..,"job":"write","error":<int>,"history":[...],"source":<dump::library>}
-//         ("history": for kind prophist the sequence of property calls that built the element, else [])
+//         ("history": for kind prophist the sequence of property calls that built the element, else [];
+//          "pathspec": for kind multipath the spine / per-element tag, width, offset, end of the path, else null)
 //   units <id> <path>                      gds_units -> {"id":..,"job":"units","error":..,"unit":..,"precision":..}
 //   To add a job kind: add a branch in run_job(); keep one JSON line per job.
 //
@@ -102,6 +103,15 @@ static const std::vector<Kind>& kinds() {
                    {"deg", 7, "rotation whose value in degrees, r*(180/pi), is exactly 0; 1; 16; 256; 1/16; -1; -256 (neighbouring doubles searched)"}}},
         {"units16", {{"pair", 7, "(unit,precision) = (1,1); (1e-6,1e-6); (1,1/16); (1/16,1/256); (16,1); (1/256,1/65536); (1e-3,1e-3/16)"},
                      {"element", 3, "polygon; label with magnification 16; reference array 2x3"}}},
+        // multi-element SIMPLE paths of both kinds (each element becomes its own PATH record, per repetition offset).
+        // elements i = 0..2: tag (10+i, 20+i), width {0.2, 0.4, 0.1}, offset {-1.5, 0.5, 2.25} (left of travel),
+        // extensions (0.05+0.01i, 0.02i) when extended.  The result line echoes the construction as "pathspec".
+        {"multipath", {{"type", 2, "FlexPath; RobustPath"},
+                       {"nel", 2, "2; 3 elements"},
+                       {"spine", 3, "straight (1,-2)->(11,-2); L ...->(11,6); 3 segments ...->(3,6)"},
+                       {"end", 5, "flush; round; half-width; extended; smooth"},
+                       {"scale_width", 2, "true; false"},
+                       {"rep", 2, "none; rect 2x1 spacing (12.5,3)"}}},
         {"prophist", {{"element", 4, "polygon; simple path; label; reference"},
                       {"op1", 11, "see above"}, {"op2", 11, "see above"}, {"op3", 11, "see above"}, {"op4", 11, "see above"}}},
     };
@@ -338,6 +348,37 @@ static bool build_family(Library& lib, int libcfg, const std::string& kind, cons
             }
             top->reference_array.append(r);
         }
+    } else if (kind == "multipath") {
+        int nel = p[1] + 2, nseg = p[2] + 1;
+        static const double W[] = {0.2, 0.4, 0.1}, O[] = {-1.5, 0.5, 2.25};
+        static const Vec2 P[] = {{11, -2}, {11, 6}, {3, 6}};
+        static const EndType ends[] = {EndType::Flush, EndType::Round, EndType::HalfWidth, EndType::Extended, EndType::Smooth};
+        Tag tags[3] = {make_tag(10, 20), make_tag(11, 21), make_tag(12, 22)};
+        if (p[0] == 0) {
+            FlexPath* f = (FlexPath*)allocate_clear(sizeof(FlexPath));
+            f->init(Vec2{1, -2}, (uint64_t)nel, W, O, 0.01, tags);
+            for (int i = 0; i < nseg; i++) f->segment(P[i], NULL, NULL, false);
+            f->simple_path = true;
+            f->scale_width = p[4] == 0;
+            for (int i = 0; i < nel; i++) {
+                f->elements[i].end_type = ends[p[3]];
+                f->elements[i].end_extensions = Vec2{0.05 + 0.01 * i, 0.02 * i};
+            }
+            set_rep(f->repetition, p[5] ? 6 : 0);
+            top->flexpath_array.append(f);
+        } else {
+            RobustPath* r = (RobustPath*)allocate_clear(sizeof(RobustPath));
+            r->init(Vec2{1, -2}, (uint64_t)nel, W, O, 0.01, 1000, tags);
+            for (int i = 0; i < nseg; i++) r->segment(P[i], NULL, NULL, false);
+            r->simple_path = true;
+            r->scale_width = p[4] == 0;
+            for (int i = 0; i < nel; i++) {
+                r->elements[i].end_type = ends[p[3]];
+                r->elements[i].end_extensions = Vec2{0.05 + 0.01 * i, 0.02 * i};
+            }
+            set_rep(r->repetition, p[5] ? 6 : 0);
+            top->robustpath_array.append(r);
+        }
     } else if (kind == "prophist") {
         Property** props = NULL;
         if (p[0] == 0) {
@@ -382,6 +423,20 @@ static bool build_family(Library& lib, int libcfg, const std::string& kind, cons
         }
     }
     return true;
+}
+
+// the construction of a multipath member, echoed for the judge (inputs only, nothing computed by gdstk)
+static std::string pathspec_json(const std::string& kind, const std::vector<int>& p) {
+    if (kind != "multipath" || p.size() != 6) return "null";
+    static const double W[] = {0.2, 0.4, 0.1}, O[] = {-1.5, 0.5, 2.25};
+    static const double P[4][2] = {{1, -2}, {11, -2}, {11, 6}, {3, 6}};
+    static const char* ends[] = {"flush", "round", "half-width", "extended", "smooth"};
+    std::vector<std::string> sp, els;
+    for (int i = 0; i <= p[2] + 1; i++) sp.push_back("[" + vf::jnum(P[i][0]) + "," + vf::jnum(P[i][1]) + "]");
+    for (int i = 0; i < p[1] + 2; i++)
+        els.push_back(vf::jobj({{"tag", "[" + vf::jint(10 + i) + "," + vf::jint(20 + i) + "]"}, {"width", vf::jnum(W[i])}, {"offset", vf::jnum(O[i])},
+                                {"end", vf::jstr(ends[p[3]])}, {"ext", "[" + vf::jnum(0.05 + 0.01 * i) + "," + vf::jnum(0.02 * i) + "]"}}));
+    return vf::jobj({{"type", vf::jstr(p[0] ? "robust" : "flex")}, {"spine", vf::jarr(sp)}, {"scale_width", vf::jbool(p[4] == 0)}, {"elements", vf::jarr(els)}});
 }
 
 // the history of a prophist member, echoed for the judge: [["set",1,"ab"],["remove",2], ...]
@@ -430,7 +485,7 @@ static std::string run_job(const std::vector<std::string>& t) {
         stamp.tm_year = 124; stamp.tm_mon = 2; stamp.tm_mday = 5; stamp.tm_hour = 6; stamp.tm_min = 7; stamp.tm_sec = 8;
         ErrorCode e = lib.write_gds(t[2].c_str(), (uint64_t)atoll(t[3].c_str()), &stamp);
         lib.free_all();
-        return jobj({{"id", jstr(id)}, {"job", jstr("write")}, {"error", jint((int)e)}, {"history", history_json(t[5], p)}, {"source", src}});
+        return jobj({{"id", jstr(id)}, {"job", jstr("write")}, {"error", jint((int)e)}, {"history", history_json(t[5], p)}, {"pathspec", pathspec_json(t[5], p)}, {"source", src}});
     }
     return jobj({{"id", jstr(id)}, {"job", jstr("bad")}, {"detail", jstr("unknown job or wrong argument count: " + job)}});
 }
